@@ -34,7 +34,7 @@ TEMPLATES = ('hand_made', 'manifest_a', 'manifest_b', 'manifest_e', 'manifest_ef
              'manifest_n', 'manifest_vod_aiv')
 MODES = ('live', 'vod', 'odvod')
 ALPHABET = {
-    'depth': [None, '0', '1', '30', '-5', '100000'],
+    'depth': [None, '0', '1', '30', '-5', '7200'],
     'mup': [None, '0', '1', '-1', '7'],
     'start': [None, 'epoch', 'today', 'now', '2024-02-29T23:59:59.5Z', '2024-03-01T01:00:00+01:00'],
     'timeline': [None, '1'],
